@@ -74,6 +74,51 @@ impl<K: PartialEq, V> HashMap<K, V> {
     pub fn iter(&self) -> impl Iterator<Item = (&K, &V)> {
         self.items.iter().map(|(k, v)| (k, v))
     }
+    pub fn iter_mut(&mut self) -> impl Iterator<Item = (&K, &mut V)> {
+        self.items.iter_mut().map(|(k, v)| (&*k, v))
+    }
+    pub fn keys(&self) -> impl Iterator<Item = &K> {
+        self.items.iter().map(|(k, _)| k)
+    }
+    pub fn values(&self) -> impl Iterator<Item = &V> {
+        self.items.iter().map(|(_, v)| v)
+    }
+    pub fn values_mut(&mut self) -> impl Iterator<Item = &mut V> {
+        self.items.iter_mut().map(|(_, v)| v)
+    }
+    pub fn get_mut<Q: ?Sized + PartialEq>(&mut self, k: &Q) -> Option<&mut V>
+    where
+        K: Borrow<Q>,
+    {
+        let mut i = 0;
+        while i < self.items.len() {
+            if self.items[i].0.borrow() == k {
+                return Some(&mut self.items[i].1);
+            }
+            i += 1;
+        }
+        None
+    }
+    pub fn retain<F: FnMut(&K, &mut V) -> bool>(&mut self, mut f: F) {
+        self.items.retain_mut(|(k, v)| f(&*k, v));
+    }
+}
+impl<'a, K, V> IntoIterator for &'a HashMap<K, V> {
+    type Item = (&'a K, &'a V);
+    type IntoIter = std::iter::Map<std::slice::Iter<'a, (K, V)>, fn(&'a (K, V)) -> (&'a K, &'a V)>;
+    fn into_iter(self) -> Self::IntoIter {
+        fn split<'b, A, B>(p: &'b (A, B)) -> (&'b A, &'b B) {
+            (&p.0, &p.1)
+        }
+        self.items.iter().map(split as fn(&'a (K, V)) -> (&'a K, &'a V))
+    }
+}
+impl<K, V> IntoIterator for HashMap<K, V> {
+    type Item = (K, V);
+    type IntoIter = std::vec::IntoIter<(K, V)>;
+    fn into_iter(self) -> Self::IntoIter {
+        self.items.into_iter()
+    }
 }
 
 pub struct HashSet<K> {
@@ -129,6 +174,19 @@ impl<K: PartialEq> HashSet<K> {
         self.items.len()
     }
     pub fn iter(&self) -> std::slice::Iter<'_, K> {
+        self.items.iter()
+    }
+    pub fn is_empty(&self) -> bool {
+        self.items.is_empty()
+    }
+    pub fn retain<F: FnMut(&K) -> bool>(&mut self, f: F) {
+        self.items.retain(f);
+    }
+}
+impl<'a, K> IntoIterator for &'a HashSet<K> {
+    type Item = &'a K;
+    type IntoIter = std::slice::Iter<'a, K>;
+    fn into_iter(self) -> Self::IntoIter {
         self.items.iter()
     }
 }
